@@ -163,6 +163,11 @@ define {
       \cup (IF ~top /\ CFG.reentrant
             THEN {"kick " \o IName(ix) : ix \in {q \in 1..Len(pi) : PupLive(q) /\ PupMode(pi[q].pup) # "pull"
                                                                    /\ pi[q].sent < MaxData}}
+                 \* ... or complete / fail at once
+                 \cup {"kickend " \o IName(ix) : ix \in {q \in 1..Len(pi) : PupLive(q) /\ PupMode(pi[q].pup) # "pull"}}
+                 \cup (IF CFG.allowFail
+                       THEN {"kickfail " \o IName(ix) : ix \in {q \in 1..Len(pi) : PupLive(q) /\ PupMode(pi[q].pup) # "pull"}}
+                       ELSE {})
             ELSE {})
   \* threaded scenarios: a member whose thread program starts with "greet" answers the Handshake from
   \* its own thread (later); every other member greets inside the subscribing call
@@ -175,6 +180,8 @@ define {
   PullOpts(ix) == LET md == PupMode(pi[ix].pup) IN
       (IF md # "pull" THEN {"ignore"} ELSE {})
       \cup (IF md # "push" THEN AnswerOpts(ix) \cup {"defer"} ELSE {})
+      \* an eagerly completing source: answers the Pull with its last datum and completes at once
+      \cup (IF md = "any" /\ pi[ix].sent < MaxData THEN {"dataend"} ELSE {})
   PupTopOpts(ix) == LET md == PupMode(pi[ix].pup) IN
       (IF pi[ix].pending THEN {"greet"} ELSE {})
       \cup (IF PupLive(ix) /\ md # "pull"
@@ -347,6 +354,12 @@ P3:
 T1:
     if (ch = "data") {
       call Emit(to.s);
+    } else if (ch = "dataend") {
+      call Emit(to.s);
+T1a:
+      if (PupLive(to.s)) {
+        call EndP(to.s);
+      };
     } else if (ch = "end") {
       call EndP(to.s);
     } else if (ch = "err") {
@@ -1182,6 +1195,10 @@ SA0:
     call Deliver(KName(ka), sk[ka].tb, MsgE(800 + ka));
   } else if (\E ix \in 1..Len(pi) : ca = "kick " \o IName(ix)) {
     call Emit(CHOOSE ix \in 1..Len(pi) : ca = "kick " \o IName(ix));
+  } else if (\E ix \in 1..Len(pi) : ca = "kickend " \o IName(ix)) {
+    call EndP(CHOOSE ix \in 1..Len(pi) : ca = "kickend " \o IName(ix));
+  } else if (\E ix \in 1..Len(pi) : ca = "kickfail " \o IName(ix)) {
+    call FailP(CHOOSE ix \in 1..Len(pi) : ca = "kickfail " \o IName(ix));
   } else if (\E j \in 1..NSinks : \E a \in {"attach", "pull", "term"} : ca = "x " \o a \o " " \o KName(j)) {
     \* a top-level action of another subscription, performed from inside this sink's handler
     ntop := ntop + 1;
@@ -1493,6 +1510,11 @@ SinkOpts(k, top) ==
     \cup (IF ~top /\ CFG.reentrant
           THEN {"kick " \o IName(ix) : ix \in {q \in 1..Len(pi) : PupLive(q) /\ PupMode(pi[q].pup) # "pull"
                                                                  /\ pi[q].sent < MaxData}}
+
+               \cup {"kickend " \o IName(ix) : ix \in {q \in 1..Len(pi) : PupLive(q) /\ PupMode(pi[q].pup) # "pull"}}
+               \cup (IF CFG.allowFail
+                     THEN {"kickfail " \o IName(ix) : ix \in {q \in 1..Len(pi) : PupLive(q) /\ PupMode(pi[q].pup) # "pull"}}
+                     ELSE {})
           ELSE {})
 
 
@@ -1505,6 +1527,8 @@ BurstOpts(ix) == {"stop"} \cup AnswerOpts(ix)
 PullOpts(ix) == LET md == PupMode(pi[ix].pup) IN
     (IF md # "pull" THEN {"ignore"} ELSE {})
     \cup (IF md # "push" THEN AnswerOpts(ix) \cup {"defer"} ELSE {})
+
+    \cup (IF md = "any" /\ pi[ix].sent < MaxData THEN {"dataend"} ELSE {})
 PupTopOpts(ix) == LET md == PupMode(pi[ix].pup) IN
     (IF pi[ix].pending THEN {"greet"} ELSE {})
     \cup (IF PupLive(ix) /\ md # "pull"
@@ -3319,7 +3343,7 @@ DDisp(self) == /\ pc[self] = "DDisp"
                                                                                                                                                                                                                                      sx, 
                                                                                                                                                                                                                                      ch >>
                                                                                                                                                                                                      ELSE /\ Assert(FALSE, 
-                                                                                                                                                                                                                    "Failure of assertion at line 1157, column 5.")
+                                                                                                                                                                                                                    "Failure of assertion at line 1170, column 5.")
                                                                                                                                                                                                           /\ pc' = [pc EXCEPT ![self] = "Ret"]
                                                                                                                                                                                                           /\ UNCHANGED << st, 
                                                                                                                                                                                                                           tasks, 
@@ -3451,36 +3475,61 @@ T1(self) == /\ pc[self] = "T1"
                                                                \o stack[self]]
                        /\ pc' = [pc EXCEPT ![self] = "E0"]
                        /\ UNCHANGED << pi, obs, nx, fx >>
-                  ELSE /\ IF ch[self] = "end"
-                             THEN /\ /\ nx' = [nx EXCEPT ![self] = to[self].s]
-                                     /\ stack' = [stack EXCEPT ![self] = << [ procedure |->  "EndP",
-                                                                              pc        |->  "T2",
-                                                                              nx        |->  nx[self] ] >>
+                  ELSE /\ IF ch[self] = "dataend"
+                             THEN /\ /\ ex' = [ex EXCEPT ![self] = to[self].s]
+                                     /\ stack' = [stack EXCEPT ![self] = << [ procedure |->  "Emit",
+                                                                              pc        |->  "T1a",
+                                                                              ex        |->  ex[self] ] >>
                                                                           \o stack[self]]
-                                  /\ pc' = [pc EXCEPT ![self] = "N0"]
-                                  /\ UNCHANGED << pi, obs, fx >>
-                             ELSE /\ IF ch[self] = "err"
-                                        THEN /\ /\ fx' = [fx EXCEPT ![self] = to[self].s]
-                                                /\ stack' = [stack EXCEPT ![self] = << [ procedure |->  "FailP",
+                                  /\ pc' = [pc EXCEPT ![self] = "E0"]
+                                  /\ UNCHANGED << pi, obs, nx, fx >>
+                             ELSE /\ IF ch[self] = "end"
+                                        THEN /\ /\ nx' = [nx EXCEPT ![self] = to[self].s]
+                                                /\ stack' = [stack EXCEPT ![self] = << [ procedure |->  "EndP",
                                                                                          pc        |->  "T2",
-                                                                                         fx        |->  fx[self] ] >>
+                                                                                         nx        |->  nx[self] ] >>
                                                                                      \o stack[self]]
-                                             /\ pc' = [pc EXCEPT ![self] = "F0"]
-                                             /\ UNCHANGED << pi, obs >>
-                                        ELSE /\ IF ch[self] = "defer"
-                                                   THEN /\ pi' = [pi EXCEPT ![to[self].s].deferred = pi[to[self].s].deferred + 1]
-                                                        /\ obs' = LogO(obs, Ev("note", ThOf(self), "", IName(to[self].s), "defer", 0))
-                                                   ELSE /\ TRUE
+                                             /\ pc' = [pc EXCEPT ![self] = "N0"]
+                                             /\ UNCHANGED << pi, obs, fx >>
+                                        ELSE /\ IF ch[self] = "err"
+                                                   THEN /\ /\ fx' = [fx EXCEPT ![self] = to[self].s]
+                                                           /\ stack' = [stack EXCEPT ![self] = << [ procedure |->  "FailP",
+                                                                                                    pc        |->  "T2",
+                                                                                                    fx        |->  fx[self] ] >>
+                                                                                                \o stack[self]]
+                                                        /\ pc' = [pc EXCEPT ![self] = "F0"]
                                                         /\ UNCHANGED << pi, 
                                                                         obs >>
-                                             /\ pc' = [pc EXCEPT ![self] = "T2"]
-                                             /\ UNCHANGED << stack, fx >>
-                                  /\ nx' = nx
-                       /\ ex' = ex
+                                                   ELSE /\ IF ch[self] = "defer"
+                                                              THEN /\ pi' = [pi EXCEPT ![to[self].s].deferred = pi[to[self].s].deferred + 1]
+                                                                   /\ obs' = LogO(obs, Ev("note", ThOf(self), "", IName(to[self].s), "defer", 0))
+                                                              ELSE /\ TRUE
+                                                                   /\ UNCHANGED << pi, 
+                                                                                   obs >>
+                                                        /\ pc' = [pc EXCEPT ![self] = "T2"]
+                                                        /\ UNCHANGED << stack, 
+                                                                        fx >>
+                                             /\ nx' = nx
+                                  /\ ex' = ex
             /\ UNCHANGED << ci, st, nd, sk, fi, tasks, now, script, ntop, 
                             panicked, started, mon, done, fr, to, m, lg, sx, 
                             jx, ch, lv, snap, ka, ca, gx, bx, bc, tx, ta, tc, 
                             ft, act, sj, tk >>
+
+T1a(self) == /\ pc[self] = "T1a"
+             /\ IF PupLive(to[self].s)
+                   THEN /\ /\ nx' = [nx EXCEPT ![self] = to[self].s]
+                           /\ stack' = [stack EXCEPT ![self] = << [ procedure |->  "EndP",
+                                                                    pc        |->  "T2",
+                                                                    nx        |->  nx[self] ] >>
+                                                                \o stack[self]]
+                        /\ pc' = [pc EXCEPT ![self] = "N0"]
+                   ELSE /\ pc' = [pc EXCEPT ![self] = "T2"]
+                        /\ UNCHANGED << stack, nx >>
+             /\ UNCHANGED << ci, st, nd, sk, pi, fi, tasks, now, obs, script, 
+                             ntop, panicked, started, mon, done, fr, to, m, lg, 
+                             sx, jx, ch, lv, snap, ka, ca, gx, ex, fx, bx, bc, 
+                             tx, ta, tc, ft, act, sj, tk >>
 
 T2(self) == /\ pc[self] = "T2"
             /\ pc' = [pc EXCEPT ![self] = "Ret"]
@@ -6000,26 +6049,26 @@ Halt(self) == /\ pc[self] = "Halt"
 
 Deliver(self) == DStart(self) \/ DDisp(self) \/ K1(self) \/ K1a(self)
                     \/ K2(self) \/ K2a(self) \/ K3(self) \/ P1(self)
-                    \/ P2(self) \/ P3(self) \/ T1(self) \/ T2(self)
-                    \/ FE1(self) \/ FE2(self) \/ FE3(self) \/ FE4(self)
-                    \/ FR1(self) \/ FR2(self) \/ FR3(self) \/ FR4(self)
-                    \/ FR5(self) \/ FR6(self) \/ FR7(self) \/ FR8(self)
-                    \/ FR9(self) \/ MP1(self) \/ MP2(self) \/ MP3(self)
-                    \/ MP4(self) \/ MP5(self) \/ MP6(self) \/ MP7(self)
-                    \/ MP8(self) \/ FI1(self) \/ FI2(self) \/ FI3(self)
-                    \/ FI4(self) \/ FI5(self) \/ FI6(self) \/ FI7(self)
-                    \/ FI8(self) \/ SC1(self) \/ SC2(self) \/ SC3(self)
-                    \/ SC4(self) \/ SC5(self) \/ SC6(self) \/ SC7(self)
-                    \/ SC8(self) \/ TK1(self) \/ TK2(self) \/ TK3(self)
-                    \/ TK4(self) \/ tk_taken_fu(self) \/ tk_data(self)
-                    \/ tk_max(self) \/ tk_end_ld(self) \/ tk_end_st(self)
-                    \/ tk_up_ld(self) \/ tk_up_term(self)
-                    \/ tk_sink_term(self) \/ TK5(self) \/ TK6(self)
-                    \/ TK7(self) \/ TK8(self) \/ TK9(self) \/ SK1(self)
-                    \/ SK2(self) \/ SK3(self) \/ SK4(self) \/ SK6(self)
-                    \/ SK5(self) \/ SK7(self) \/ SK8(self) \/ MG1(self)
-                    \/ MG2(self) \/ MG8a(self) \/ MG8(self) \/ MG9(self)
-                    \/ mg_late_ld(self) \/ mg_late_ret(self)
+                    \/ P2(self) \/ P3(self) \/ T1(self) \/ T1a(self)
+                    \/ T2(self) \/ FE1(self) \/ FE2(self) \/ FE3(self)
+                    \/ FE4(self) \/ FR1(self) \/ FR2(self) \/ FR3(self)
+                    \/ FR4(self) \/ FR5(self) \/ FR6(self) \/ FR7(self)
+                    \/ FR8(self) \/ FR9(self) \/ MP1(self) \/ MP2(self)
+                    \/ MP3(self) \/ MP4(self) \/ MP5(self) \/ MP6(self)
+                    \/ MP7(self) \/ MP8(self) \/ FI1(self) \/ FI2(self)
+                    \/ FI3(self) \/ FI4(self) \/ FI5(self) \/ FI6(self)
+                    \/ FI7(self) \/ FI8(self) \/ SC1(self) \/ SC2(self)
+                    \/ SC3(self) \/ SC4(self) \/ SC5(self) \/ SC6(self)
+                    \/ SC7(self) \/ SC8(self) \/ TK1(self) \/ TK2(self)
+                    \/ TK3(self) \/ TK4(self) \/ tk_taken_fu(self)
+                    \/ tk_data(self) \/ tk_max(self) \/ tk_end_ld(self)
+                    \/ tk_end_st(self) \/ tk_up_ld(self)
+                    \/ tk_up_term(self) \/ tk_sink_term(self) \/ TK5(self)
+                    \/ TK6(self) \/ TK7(self) \/ TK8(self) \/ TK9(self)
+                    \/ SK1(self) \/ SK2(self) \/ SK3(self) \/ SK4(self)
+                    \/ SK6(self) \/ SK5(self) \/ SK7(self) \/ SK8(self)
+                    \/ MG1(self) \/ MG2(self) \/ MG8a(self) \/ MG8(self)
+                    \/ MG9(self) \/ mg_late_ld(self) \/ mg_late_ret(self)
                     \/ mg_tb_st(self) \/ mg_start_fa(self)
                     \/ mg_greet(self) \/ MG3(self) \/ mg_data(self)
                     \/ MG4(self) \/ mg_ended_st(self) \/ mg_sib_ld(self)
@@ -6071,7 +6120,7 @@ SA0(self) == /\ pc[self] = "SA0"
                         /\ lv' = [lv EXCEPT ![self] = 0]
                         /\ snap' = [snap EXCEPT ![self] = <<>>]
                         /\ pc' = [pc EXCEPT ![self] = "DStart"]
-                        /\ UNCHANGED << obs, ntop, ka, ca, ex >>
+                        /\ UNCHANGED << obs, ntop, ka, ca, ex, nx, fx >>
                    ELSE /\ IF ca[self] = "term"
                               THEN /\ sk' = [sk EXCEPT ![ka[self]].disposed = TRUE]
                                    /\ /\ fr' = [fr EXCEPT ![self] = KName(ka[self])]
@@ -6096,7 +6145,8 @@ SA0(self) == /\ pc[self] = "SA0"
                                    /\ lv' = [lv EXCEPT ![self] = 0]
                                    /\ snap' = [snap EXCEPT ![self] = <<>>]
                                    /\ pc' = [pc EXCEPT ![self] = "DStart"]
-                                   /\ UNCHANGED << obs, ntop, ka, ca, ex >>
+                                   /\ UNCHANGED << obs, ntop, ka, ca, ex, nx, 
+                                                   fx >>
                               ELSE /\ IF ca[self] = "err"
                                          THEN /\ sk' = [sk EXCEPT ![ka[self]].disposed = TRUE]
                                               /\ /\ fr' = [fr EXCEPT ![self] = KName(ka[self])]
@@ -6122,7 +6172,7 @@ SA0(self) == /\ pc[self] = "SA0"
                                               /\ snap' = [snap EXCEPT ![self] = <<>>]
                                               /\ pc' = [pc EXCEPT ![self] = "DStart"]
                                               /\ UNCHANGED << obs, ntop, ka, 
-                                                              ca, ex >>
+                                                              ca, ex, nx, fx >>
                                          ELSE /\ IF \E ix \in 1..Len(pi) : ca[self] = "kick " \o IName(ix)
                                                     THEN /\ /\ ex' = [ex EXCEPT ![self] = CHOOSE ix \in 1..Len(pi) : ca[self] = "kick " \o IName(ix)]
                                                             /\ stack' = [stack EXCEPT ![self] = << [ procedure |->  "Emit",
@@ -6142,61 +6192,19 @@ SA0(self) == /\ pc[self] = "SA0"
                                                                          lv, 
                                                                          snap, 
                                                                          ka, 
-                                                                         ca >>
-                                                    ELSE /\ IF \E j \in 1..NSinks : \E a \in {"attach", "pull", "term"} : ca[self] = "x " \o a \o " " \o KName(j)
-                                                               THEN /\ ntop' = ntop + 1
-                                                                    /\ \E j \in {q \in 1..NSinks : \E a \in {"attach", "pull", "term"} : ca[self] = "x " \o a \o " " \o KName(q)}:
-                                                                         \E a \in {b \in {"attach", "pull", "term"} : ca[self] = "x " \o b \o " " \o KName(j)}:
-                                                                           /\ obs' = LogO(obs, Ev("top", 0, "", KName(j), a, 0))
-                                                                           /\ IF a = "attach"
-                                                                                 THEN /\ sk' = [sk EXCEPT ![j].attached = TRUE]
-                                                                                      /\ /\ fr' = [fr EXCEPT ![self] = "S"]
-                                                                                         /\ m' = [m EXCEPT ![self] = MsgH(Ref(0, "K", j, 0))]
-                                                                                         /\ stack' = [stack EXCEPT ![self] = << [ procedure |->  "Deliver",
-                                                                                                                                  pc        |->  "SA1",
-                                                                                                                                  lg        |->  lg[self],
-                                                                                                                                  sx        |->  sx[self],
-                                                                                                                                  jx        |->  jx[self],
-                                                                                                                                  ch        |->  ch[self],
-                                                                                                                                  lv        |->  lv[self],
-                                                                                                                                  snap      |->  snap[self],
-                                                                                                                                  fr        |->  fr[self],
-                                                                                                                                  to        |->  to[self],
-                                                                                                                                  m         |->  m[self] ] >>
-                                                                                                                              \o stack[self]]
-                                                                                         /\ to' = [to EXCEPT ![self] = Ref(CFG.root, "src", 0, 0)]
-                                                                                      /\ lg' = [lg EXCEPT ![self] = FALSE]
-                                                                                      /\ sx' = [sx EXCEPT ![self] = 0]
-                                                                                      /\ jx' = [jx EXCEPT ![self] = 0]
-                                                                                      /\ ch' = [ch EXCEPT ![self] = ""]
-                                                                                      /\ lv' = [lv EXCEPT ![self] = 0]
-                                                                                      /\ snap' = [snap EXCEPT ![self] = <<>>]
-                                                                                      /\ pc' = [pc EXCEPT ![self] = "DStart"]
-                                                                                      /\ UNCHANGED << ka, 
-                                                                                                      ca >>
-                                                                                 ELSE /\ /\ ca' = [ca EXCEPT ![self] = a]
-                                                                                         /\ ka' = [ka EXCEPT ![self] = j]
-                                                                                         /\ stack' = [stack EXCEPT ![self] = << [ procedure |->  "SinkAct",
-                                                                                                                                  pc        |->  "SA1",
-                                                                                                                                  ka        |->  ka[self],
-                                                                                                                                  ca        |->  ca[self] ] >>
-                                                                                                                              \o stack[self]]
-                                                                                      /\ pc' = [pc EXCEPT ![self] = "SA0"]
-                                                                                      /\ UNCHANGED << sk, 
-                                                                                                      fr, 
-                                                                                                      to, 
-                                                                                                      m, 
-                                                                                                      lg, 
-                                                                                                      sx, 
-                                                                                                      jx, 
-                                                                                                      ch, 
-                                                                                                      lv, 
-                                                                                                      snap >>
-                                                               ELSE /\ pc' = [pc EXCEPT ![self] = "SA1"]
+                                                                         ca, 
+                                                                         nx, 
+                                                                         fx >>
+                                                    ELSE /\ IF \E ix \in 1..Len(pi) : ca[self] = "kickend " \o IName(ix)
+                                                               THEN /\ /\ nx' = [nx EXCEPT ![self] = CHOOSE ix \in 1..Len(pi) : ca[self] = "kickend " \o IName(ix)]
+                                                                       /\ stack' = [stack EXCEPT ![self] = << [ procedure |->  "EndP",
+                                                                                                                pc        |->  "SA1",
+                                                                                                                nx        |->  nx[self] ] >>
+                                                                                                            \o stack[self]]
+                                                                    /\ pc' = [pc EXCEPT ![self] = "N0"]
                                                                     /\ UNCHANGED << sk, 
                                                                                     obs, 
                                                                                     ntop, 
-                                                                                    stack, 
                                                                                     fr, 
                                                                                     to, 
                                                                                     m, 
@@ -6207,11 +6215,100 @@ SA0(self) == /\ pc[self] = "SA0"
                                                                                     lv, 
                                                                                     snap, 
                                                                                     ka, 
-                                                                                    ca >>
+                                                                                    ca, 
+                                                                                    fx >>
+                                                               ELSE /\ IF \E ix \in 1..Len(pi) : ca[self] = "kickfail " \o IName(ix)
+                                                                          THEN /\ /\ fx' = [fx EXCEPT ![self] = CHOOSE ix \in 1..Len(pi) : ca[self] = "kickfail " \o IName(ix)]
+                                                                                  /\ stack' = [stack EXCEPT ![self] = << [ procedure |->  "FailP",
+                                                                                                                           pc        |->  "SA1",
+                                                                                                                           fx        |->  fx[self] ] >>
+                                                                                                                       \o stack[self]]
+                                                                               /\ pc' = [pc EXCEPT ![self] = "F0"]
+                                                                               /\ UNCHANGED << sk, 
+                                                                                               obs, 
+                                                                                               ntop, 
+                                                                                               fr, 
+                                                                                               to, 
+                                                                                               m, 
+                                                                                               lg, 
+                                                                                               sx, 
+                                                                                               jx, 
+                                                                                               ch, 
+                                                                                               lv, 
+                                                                                               snap, 
+                                                                                               ka, 
+                                                                                               ca >>
+                                                                          ELSE /\ IF \E j \in 1..NSinks : \E a \in {"attach", "pull", "term"} : ca[self] = "x " \o a \o " " \o KName(j)
+                                                                                     THEN /\ ntop' = ntop + 1
+                                                                                          /\ \E j \in {q \in 1..NSinks : \E a \in {"attach", "pull", "term"} : ca[self] = "x " \o a \o " " \o KName(q)}:
+                                                                                               \E a \in {b \in {"attach", "pull", "term"} : ca[self] = "x " \o b \o " " \o KName(j)}:
+                                                                                                 /\ obs' = LogO(obs, Ev("top", 0, "", KName(j), a, 0))
+                                                                                                 /\ IF a = "attach"
+                                                                                                       THEN /\ sk' = [sk EXCEPT ![j].attached = TRUE]
+                                                                                                            /\ /\ fr' = [fr EXCEPT ![self] = "S"]
+                                                                                                               /\ m' = [m EXCEPT ![self] = MsgH(Ref(0, "K", j, 0))]
+                                                                                                               /\ stack' = [stack EXCEPT ![self] = << [ procedure |->  "Deliver",
+                                                                                                                                                        pc        |->  "SA1",
+                                                                                                                                                        lg        |->  lg[self],
+                                                                                                                                                        sx        |->  sx[self],
+                                                                                                                                                        jx        |->  jx[self],
+                                                                                                                                                        ch        |->  ch[self],
+                                                                                                                                                        lv        |->  lv[self],
+                                                                                                                                                        snap      |->  snap[self],
+                                                                                                                                                        fr        |->  fr[self],
+                                                                                                                                                        to        |->  to[self],
+                                                                                                                                                        m         |->  m[self] ] >>
+                                                                                                                                                    \o stack[self]]
+                                                                                                               /\ to' = [to EXCEPT ![self] = Ref(CFG.root, "src", 0, 0)]
+                                                                                                            /\ lg' = [lg EXCEPT ![self] = FALSE]
+                                                                                                            /\ sx' = [sx EXCEPT ![self] = 0]
+                                                                                                            /\ jx' = [jx EXCEPT ![self] = 0]
+                                                                                                            /\ ch' = [ch EXCEPT ![self] = ""]
+                                                                                                            /\ lv' = [lv EXCEPT ![self] = 0]
+                                                                                                            /\ snap' = [snap EXCEPT ![self] = <<>>]
+                                                                                                            /\ pc' = [pc EXCEPT ![self] = "DStart"]
+                                                                                                            /\ UNCHANGED << ka, 
+                                                                                                                            ca >>
+                                                                                                       ELSE /\ /\ ca' = [ca EXCEPT ![self] = a]
+                                                                                                               /\ ka' = [ka EXCEPT ![self] = j]
+                                                                                                               /\ stack' = [stack EXCEPT ![self] = << [ procedure |->  "SinkAct",
+                                                                                                                                                        pc        |->  "SA1",
+                                                                                                                                                        ka        |->  ka[self],
+                                                                                                                                                        ca        |->  ca[self] ] >>
+                                                                                                                                                    \o stack[self]]
+                                                                                                            /\ pc' = [pc EXCEPT ![self] = "SA0"]
+                                                                                                            /\ UNCHANGED << sk, 
+                                                                                                                            fr, 
+                                                                                                                            to, 
+                                                                                                                            m, 
+                                                                                                                            lg, 
+                                                                                                                            sx, 
+                                                                                                                            jx, 
+                                                                                                                            ch, 
+                                                                                                                            lv, 
+                                                                                                                            snap >>
+                                                                                     ELSE /\ pc' = [pc EXCEPT ![self] = "SA1"]
+                                                                                          /\ UNCHANGED << sk, 
+                                                                                                          obs, 
+                                                                                                          ntop, 
+                                                                                                          stack, 
+                                                                                                          fr, 
+                                                                                                          to, 
+                                                                                                          m, 
+                                                                                                          lg, 
+                                                                                                          sx, 
+                                                                                                          jx, 
+                                                                                                          ch, 
+                                                                                                          lv, 
+                                                                                                          snap, 
+                                                                                                          ka, 
+                                                                                                          ca >>
+                                                                               /\ fx' = fx
+                                                                    /\ nx' = nx
                                                          /\ ex' = ex
              /\ UNCHANGED << ci, st, nd, pi, fi, tasks, now, script, panicked, 
-                             started, mon, done, gx, nx, fx, bx, bc, tx, ta, 
-                             tc, ft, act, sj, tk >>
+                             started, mon, done, gx, bx, bc, tx, ta, tc, ft, 
+                             act, sj, tk >>
 
 SA1(self) == /\ pc[self] = "SA1"
              /\ pc' = [pc EXCEPT ![self] = Head(stack[self]).pc]
